@@ -184,13 +184,25 @@ Proof.
   - rewrite enc_string_leaf in H. injection H as <-. unfold leaves_raw. cbn [scalar_leaves map leaf_raw].
     destruct (esc o x) as [|c e] eqn:E; [rewrite raw_close_or_empty; intros r []|].
     cbn. intros r [<-|[]]. left. reflexivity.
-  - cbn in H. injection H as <-. cbn. intros r [<-|[]]. left. reflexivity.
+  - cbn [enc] in H. unfold leaves_raw. cbn [scalar_leaves map leaf_raw].
+    destruct (fmt_v _) as [|c e]; injection H as <-; [rewrite raw_close_or_empty; intros r []|].
+    cbn. intros r [<-|[]]. left. reflexivity.
   - cbn [enc] in H. injection H as <-. rewrite raw_close_or_empty. intros r [].
-  - cbn in H. injection H as <-. cbn. intros r [<-|[]]. left. reflexivity.
-  - cbn in H. injection H as <-. cbn. intros r [<-|[]]. left. reflexivity.
-  - cbn in H. injection H as <-. cbn. intros r [<-|[]]. left. reflexivity.
-  - cbn in H. injection H as <-. cbn. intros r [<-|[]]. left. reflexivity.
-  - cbn in H. injection H as <-. cbn. intros r [<-|[]]. left. reflexivity.
+  - cbn [enc] in H. unfold leaves_raw. cbn [scalar_leaves map leaf_raw].
+    destruct (fmt_v _) as [|c e]; injection H as <-; [rewrite raw_close_or_empty; intros r []|].
+    cbn. intros r [<-|[]]. left. reflexivity.
+  - cbn [enc] in H. unfold leaves_raw. cbn [scalar_leaves map leaf_raw].
+    destruct (fmt_v _) as [|c e]; injection H as <-; [rewrite raw_close_or_empty; intros r []|].
+    cbn. intros r [<-|[]]. left. reflexivity.
+  - cbn [enc] in H. unfold leaves_raw. cbn [scalar_leaves map leaf_raw].
+    destruct (fmt_v _) as [|c e]; injection H as <-; [rewrite raw_close_or_empty; intros r []|].
+    cbn. intros r [<-|[]]. left. reflexivity.
+  - cbn [enc] in H. unfold leaves_raw. cbn [scalar_leaves map leaf_raw].
+    destruct (fmt_v _) as [|c e]; injection H as <-; [rewrite raw_close_or_empty; intros r []|].
+    cbn. intros r [<-|[]]. left. reflexivity.
+  - cbn [enc] in H. unfold leaves_raw. cbn [scalar_leaves map leaf_raw].
+    destruct (fmt_v _) as [|c e]; injection H as <-; [rewrite raw_close_or_empty; intros r []|].
+    cbn. intros r [<-|[]]. left. reflexivity.
   - (* a map *)
     cbn [enc] in H. cbn [text_scalar] in Hts. apply andb_true_iff in Hts as [Htx Hkids].
     destruct (attrs_of o m) as [attrs|e|] eqn:Ea; cbn [bind] in H; try discriminate.
